@@ -5,6 +5,9 @@ helpers followed, heap with aliasing: basic indexing is a view, advanced indexin
 what is stored where, under which facts, with what the property requires.  No rule looks at the spelling of the source.
 
   c16_ext.py   R1 role discipline + first-case freshness, R2 nan_arg* / maxmin / mirror, R3 SRS envelope
+  c16_mask.py  NaN-aware selector masks decided by truth table over the feasible worlds of one element pair (a<b, a==b, a>b, a NaN, b NaN,
+               both NaN): De Morgan forms, flipped comparisons, np.where, `x != x`, operator.gt passed as a value, helper functions and
+               selectors inlined into their caller are the nan_argmax / nan_argmin call they equal
   c16_uf.py    R4 effects of _pre_calcs / apply_uf / frf_apply_uf and cache discipline, R5 documented factors, R6 exits and index spaces
 """
 from __future__ import annotations
